@@ -273,9 +273,41 @@ def sensitivity_audit(pid: str) -> dict[str, Any]:
         finally:
             shutil.rmtree(tmp, ignore_errors=True)
 
+    # the stored corpora written by independent sub-agents: seeded breaking changes of this property, and all
+    # behaviour-preserving refactorings (any of them may touch code this property's rules read)
+    import glob
+    import json as _json
+
+    corpus: list[dict[str, Any]] = []
+    for d in sorted(glob.glob(str(VERIF / "seeded" / "*"))):
+        try:
+            meta = _json.load(open(os.path.join(d, "meta.json")))
+        except Exception:
+            continue
+        if meta.get("breaks_property") == pid:
+            corpus.append({"name": "seeded:" + os.path.basename(d), "patch": os.path.join(d, "patch.diff"), "expect": "fire"})
+    for d in sorted(glob.glob(str(VERIF / "refactors" / "*"))):
+        if os.path.exists(os.path.join(d, "patch.diff")):
+            corpus.append({"name": "refactor:" + os.path.basename(d), "patch": os.path.join(d, "patch.diff"), "expect": "silent"})
+
+    def one_patch(case: dict[str, Any]) -> tuple[str, str]:
+        tmp = tempfile.mkdtemp(prefix="pyoakverif-audit-")
+        try:
+            shutil.copytree(str(REPO_SRC()), os.path.join(tmp, "src"))
+            r = subprocess.run(["patch", "-p1", "-s", "-f", "-d", tmp, "-i", case["patch"]], capture_output=True, text=True)
+            if r.returncode != 0:
+                return case["name"], "not-applicable"
+            env = dict(os.environ, PYOAK_VERIF_REPO=tmp, PYOAK_VERIF_EVIDENCE_DIR=os.path.join(tmp, "ev"), PYOAK_VERIF_OUT_DIR=os.path.join(tmp, "out"), VERIF_TIER="quick")
+            r = subprocess.run([str(VERIF / "check"), pid, "--tier", "quick"], capture_output=True, text=True, env=env, cwd=str(VERIF))
+            if case["expect"] == "fire":
+                return case["name"], "detected" if r.returncode == 1 else ("incomplete" if r.returncode == 2 else "missed")
+            return case["name"], "silent" if r.returncode == 0 else ("incomplete" if r.returncode == 2 else "alarm")
+        finally:
+            shutil.rmtree(tmp, ignore_errors=True)
+
     with cf.ThreadPoolExecutor(16) as ex:
-        results = list(ex.map(one, cases))
-    summary: dict[str, Any] = {"variants": len(results)}
+        results = list(ex.map(one, cases)) + list(ex.map(one_patch, corpus))
+    summary: dict[str, Any] = {"variants": len(results), "selftest_variants": len(cases), "stored_patches": len(corpus)}
     for k in ("detected", "missed", "incomplete", "silent", "alarm", "not-applicable"):
         names = [n for n, r in results if r == k]
         summary[k] = len(names)
